@@ -3,6 +3,9 @@ import MiniconfVerif.Props.C11
 #print axioms MiniconfVerif.C11.init_not_done
 #print axioms MiniconfVerif.C11.state_keys_finalize
 #print axioms MiniconfVerif.C11.full_depth_exact
+#print axioms MiniconfVerif.C11.limited_exact
+#print axioms MiniconfVerif.C11.depth_limited_items
+#print axioms MiniconfVerif.C11.targets_do_not_panic
 #print axioms MiniconfVerif.C11.rooted_exact
 #print axioms MiniconfVerif.C11.exactCounts_finished
 #print axioms MiniconfVerif.C11.exactCounts_items
